@@ -3,6 +3,7 @@
 set -e
 cd "$(dirname "$0")"
 export GOFLAGS=-mod=mod GOPROXY=off GOSUMDB=off GOTOOLCHAIN=local
+export DBUS_SESSION_BUS_ADDRESS=${DBUS_SESSION_BUS_ADDRESS:-unix:path=/nonexistent}
 mkdir -p .cache evidence replays
 cp /repo/go.sum harness/go.sum
 (cd harness && go build -tags verif -o ../.cache/vharness ./cmd/vharness && go build -tags verif -o ../.cache/extract ./cmd/extract && go build -race -tags verif -o ../.cache/cacherace ./cmd/cacherace)
